@@ -32,6 +32,7 @@ type xmlField struct {
 	Parents   []string // a>b> chain (without the leaf)
 	Attr      bool
 	Chardata  bool
+	CDATA     bool // written as a CDATA section
 	Any       bool
 	InnerXML  bool
 	Comment   bool
@@ -120,6 +121,7 @@ func parseXMLStruct(n *types.Named) *xmlStruct {
 				xf.Attr = true
 			case "chardata", "cdata":
 				xf.Chardata = true
+				xf.CDATA = fl == "cdata"
 			case "innerxml":
 				xf.InnerXML = true
 			case "comment":
@@ -435,6 +437,14 @@ func checkSchema(p *Program, r *RuleResult, keep func(*xmlStruct) bool, strictCa
 				}
 			case f.Chardata:
 				hasText = true
+				if f.CDATA {
+					// Inside a CDATA section nothing can be escaped: a carriage
+					// return is written raw and every XML parser normalises it
+					// to a line feed (XML 1.0 §2.11); ,chardata writes &#xD;.
+					r.Role("cdata-text")
+					r.Ob(false)
+					r.Violation("cdata|"+xs.Name.String(), fpos, fmt.Sprintf("%s is written as a CDATA section: a carriage return in the text cannot be escaped there and reaches the reader as a line feed (text altered in transit); use ,chardata", f.Label), nil)
+				}
 				r.Ob(spec.Text || spec.Any)
 				if !spec.Text && !spec.Any {
 					r.Violation("text|"+xs.Name.String(), fpos, fmt.Sprintf("%s carries character data but <%s> has no text content in %s", f.Label, xs.Name, spec.Src), nil)
